@@ -29,7 +29,7 @@ ASSUMPTIONS = ASSUME_COMMON + [
     "reference meaning of streamer fields: x_ptr_low = operand (zero address 0x10000040 for the zero constant), x_ptr_high = 0, x_sstride_j, "
     "x_bound_i padded with 1 and collapsed to 1 on a reuse-flagged dim with stride 0, x_tstride_i padded with 0, x_broadcast = 1 iff a spatial "
     "stride is 0 on a broadcast-capable streamer, channel/byte masks all-ones (0 for a zero pattern of that streamer), remap/transpose = 0",
-    "fields whose hardware meaning cannot be established independently here (alu_mode, xDMA bypass polarity) are only checked for position/count",
+    "fields whose hardware meaning cannot be established independently here: alu_mode is only checked for position; the xDMA bypass word is checked bit by bit (one bit per extension in declaration order) with both polarities accepted",
     "gemmx packed fields decoded by bit position as documented in snax_gemmx._generate_setup_vals comments (4 8-bit shifts per CSR, csr0 = min|max|zp_out|zp_in)",
     "a streaming region with fewer spatial strides than the streamer has spatial dims is refused by the compiler (IndexError) and counted as rejected",
 ]
@@ -264,7 +264,14 @@ def reference(acc, cls, pats, ptr_vals, zero_ptrs, kernel, rp, zps):
             ref[f"{x}_enabled_chan"] = 0 if zero else ALL_ONES
             if "HasByteMask" in opts:
                 ref[f"{x}_enabled_byte"] = 0 if zero else ALL_ONES
-            ref[f"{x}_bypass"] = ("skip",)
+            # one bit per extension, in declaration order; the polarity (set = extension in use, or set = bypassed) cannot be
+            # established independently here, so both readings are accepted - but nothing else
+            exts = [o for o in acc.streamer_config.data.streamers[i].opts if hasattr(o, "csr_length")]
+            used_mask = 0
+            for bit, o in enumerate(exts):
+                if o.supported_kernel is not None and o.name == {"add": "add_ext", "rescale_down": "rescale_down_ext", "rescale_up": "rescale_up_ext"}[kernel]:
+                    used_mask |= 1 << bit
+            ref[f"{x}_bypass"] = ("oneof", sorted({used_mask, ((1 << len(exts)) - 1) & ~used_mask}))
             for o in acc.streamer_config.data.streamers[i].opts:
                 if hasattr(o, "csr_length"):
                     sk = o.supported_kernel
@@ -437,6 +444,12 @@ def run_case(case, res):
         if isinstance(want, tuple):
             if want[0] == "skip":
                 R.bump(res, "fields_position_only")
+                continue
+            if want[0] == "oneof":
+                R.bump(res, "extension_bit_masks_checked")
+                if got not in want[1]:
+                    out.append({"kind": "field-holds-value-with-another-meaning", "detail": f"{f} = {got:#b}; with one bit per extension in declaration order it can only be one of {[bin(x) for x in want[1]]}", "case": case})
+                    return out
                 continue
             if want[0] == "bool":
                 # xDSL 0.70 stores `true : i1` as -1, the pinned xDSL as 1: only truthiness is compared (version drift, not the repo)
